@@ -300,6 +300,7 @@ class World:
         else:
             self._install_fake_openql()
         self._install_taps()
+        self._collect_process_state()
         gc.disable()
         gc.collect()
         gc.freeze()   # boot objects are immortal: scheduled collections only look at run objects
@@ -395,6 +396,59 @@ class World:
 
         tc.identifier_to_pivot = tapped_itp
 
+    # ------------------------------------------------------------------ process-global library state
+    def _collect_process_state(self):
+        """Every execution (P, Q(i), Q*(i)) must start from what a fresh process would have. Besides the two
+        start-time memos the library may keep other process-wide state: functools caches and module- or
+        class-level containers. They are found generically at boot (so state added by a changed library is
+        found too): caches are cleared and containers restored to their boot content at every reset."""
+        import weakref
+        caches, containers = [], []
+        seen = set()
+
+        def consider(owner, name, val):
+            if id(val) in seen:
+                return
+            cc = getattr(val, "cache_clear", None)
+            if callable(cc) and hasattr(val, "cache_info"):
+                seen.add(id(val))
+                caches.append(cc)
+            elif isinstance(val, (dict, list, set, weakref.WeakKeyDictionary, weakref.WeakValueDictionary)) and not name.startswith("__"):
+                seen.add(id(val))
+                try:
+                    snap = list(val.items()) if hasattr(val, "items") else list(val)
+                except Exception:
+                    return
+                containers.append((val, snap))
+
+        for mname, mod in list(sys.modules.items()):
+            if not (mname == "qce_circuit" or mname.startswith("qce_circuit.")) or mod is None:
+                continue
+            for name, val in list(vars(mod).items()):
+                consider(mod, name, val)
+                import enum
+                if isinstance(val, type) and getattr(val, "__module__", "").startswith("qce_circuit") and not issubclass(val, enum.Enum):
+                    for an, av in list(vars(val).items()):
+                        f = av.__func__ if isinstance(av, (staticmethod, classmethod)) else av
+                        consider(val, an, f)
+        self._caches = caches
+        self._containers = containers
+
+    def restore_process_state(self):
+        for cc in self._caches:
+            cc()
+        for cont, snap in self._containers:
+            try:
+                cont.clear()
+                if hasattr(cont, "update") and not isinstance(cont, set):
+                    cont.update(snap)
+                elif isinstance(cont, set):
+                    cont.update(snap)
+                else:
+                    cont.extend(snap)
+            except Exception:
+                pass
+
     # ------------------------------------------------------------------ reset
     def flush_memo(self, which="both"):
         L = self.lib
@@ -431,6 +485,7 @@ class World:
         self.fired = None
         self.step_gate_calls = 0
         self.flush_memo("both")
+        self.restore_process_state()
         self.plt.close("all")
         self.taps["descriptions"].clear()
         self.taps["pivots"].clear()
